@@ -66,14 +66,16 @@ pub enum Auth {
     NoClientAuth,
     Required,
     Optional,
+    /// a client CA was configured, but the PEM holds no certificate (e.g. the key file by mistake)
+    RequiredEmptyCa,
 }
 
 #[derive(Clone, Debug, Serialize, Deserialize)]
 pub enum Cell {
     /// tonic client against a raw rustls + h2 server
     Client { roots: Roots, domain: Domain, alpn: Alpn, assume_http2: bool, server_cert_other: bool },
-    /// https endpoint, no TLS configuration at all
-    HttpsWithoutTls,
+    /// https endpoint, no TLS configuration at all (eager or lazy channel)
+    HttpsWithoutTls { lazy: bool },
     /// tonic client against tonic server with client authentication
     Mutual { ident: Ident, auth: Auth },
     /// raw rustls + h2 client against the tonic server
@@ -89,7 +91,7 @@ pub struct Case {
 }
 
 fn all_cells() -> Vec<Cell> {
-    let mut v = vec![Cell::HttpsWithoutTls];
+    let mut v = vec![Cell::HttpsWithoutTls { lazy: false }, Cell::HttpsWithoutTls { lazy: true }];
     for roots in [Roots::RightCa, Roots::OtherCa, Roots::None] {
         for domain in [Domain::CfgGood, Domain::CfgBad, Domain::UriGood, Domain::UriBad] {
             for alpn in [Alpn::H2, Alpn::NoAlpn, Alpn::Http11] {
@@ -104,7 +106,7 @@ fn all_cells() -> Vec<Cell> {
         v.push(Cell::Client { roots: Roots::RightCa, domain, alpn: Alpn::H2, assume_http2: false, server_cert_other: true });
     }
     for ident in [Ident::NoCert, Ident::Valid, Ident::ByOtherCa] {
-        for auth in [Auth::NoClientAuth, Auth::Required, Auth::Optional] {
+        for auth in [Auth::NoClientAuth, Auth::Required, Auth::Optional, Auth::RequiredEmptyCa] {
             v.push(Cell::Mutual { ident, auth });
             for alpn in [Alpn::H2, Alpn::NoAlpn] {
                 v.push(Cell::RawClient { ident, auth, alpn });
@@ -178,7 +180,7 @@ fn single_connector(io: PipeEnd) -> impl tower::Service<http::Uri, Response = To
     })
 }
 
-fn run_client_cell(c: &Case, roots: Roots, domain: Domain, alpn: Alpn, assume_http2: bool, server_cert_other: bool, no_tls_cfg: bool) -> Result<Seen, Failure> {
+fn run_client_cell(c: &Case, roots: Roots, domain: Domain, alpn: Alpn, assume_http2: bool, server_cert_other: bool, no_tls_cfg: bool, lazy: bool) -> Result<Seen, Failure> {
     let (cend, send_, handle) = pipe(c.c2s.clone(), c.s2c.clone());
     let hits = Arc::new(AtomicUsize::new(0));
     let hits2 = hits.clone();
@@ -215,7 +217,8 @@ fn run_client_cell(c: &Case, roots: Roots, domain: Domain, alpn: Alpn, assume_ht
                 Err(e) => return (false, format!("tls_config: {e:?}")),
             };
         }
-        let r = match ep.connect_with_connector(single_connector(cend)).await {
+        let connected = if lazy { Ok(ep.connect_with_connector_lazy(single_connector(cend))) } else { ep.connect_with_connector(single_connector(cend)).await };
+        let r = match connected {
             Err(e) => (false, format!("connect: {e:?}")),
             Ok(ch) => {
                 let mut cl = vt::raw_client::RawClient::new(ch);
@@ -248,6 +251,7 @@ fn run_mutual(c: &Case, ident: Ident, auth: Auth, raw_client: Option<Alpn>) -> R
             Auth::NoClientAuth => {}
             Auth::Required => st = st.client_ca_root(Certificate::from_pem(CA_CLIENT)),
             Auth::Optional => st = st.client_ca_root(Certificate::from_pem(CA_CLIENT)).client_auth_optional(true),
+            Auth::RequiredEmptyCa => st = st.client_ca_root(Certificate::from_pem(SERVER_GOOD.1)),
         }
         let builder = match tonic::transport::Server::builder().tls_config(st) {
             Ok(b) => b,
@@ -369,9 +373,10 @@ fn no_plaintext(seen: &Seen) -> Result<(), Failure> {
 pub fn run(c: &Case, o: &mut Outcome) -> Result<(), Failure> {
     o.nontrivial = true;
     match &c.cell {
-        Cell::HttpsWithoutTls => {
+        Cell::HttpsWithoutTls { lazy } => {
             o.label("https_without_tls_config");
-            let seen = run_client_cell(c, Roots::RightCa, Domain::UriGood, Alpn::H2, false, false, true)?;
+            o.label_if(*lazy, "lazy_channel");
+            let seen = run_client_cell(c, Roots::RightCa, Domain::UriGood, Alpn::H2, false, false, true, *lazy)?;
             ensure!(!seen.call_ok, "C15/https-without-tls-succeeds", "https endpoint without a TLS configuration carried a call");
             ensure!(seen.hits == 0, "C15/request-reached-peer-without-authentication", "a request reached the peer");
             ensure!(seen.c2s_head.is_empty(), "C15/plaintext-fallback", "bytes were written on an https endpoint without TLS configuration: {:02x?}", &seen.c2s_head[..seen.c2s_head.len().min(16)]);
@@ -390,7 +395,7 @@ pub fn run(c: &Case, o: &mut Outcome) -> Result<(), Failure> {
             o.label_if(*assume_http2, "assume_http2");
             o.label_if(expect, "expected_success");
             o.nontrivial = !(chain && name && *alpn == Alpn::H2 && !assume_http2);
-            let seen = run_client_cell(c, *roots, *domain, *alpn, *assume_http2, *server_cert_other, false)?;
+            let seen = run_client_cell(c, *roots, *domain, *alpn, *assume_http2, *server_cert_other, false, c.rt_seed % 3 == 0)?;
             no_plaintext(&seen)?;
             if expect {
                 ensure!(seen.call_ok && seen.hits == 1, "C15/valid-configuration-refused", "chain, name and protocol are fine but the call failed: {} (requests at peer: {})", seen.error, seen.hits);
@@ -416,6 +421,7 @@ pub fn run(c: &Case, o: &mut Outcome) -> Result<(), Failure> {
                 Auth::NoClientAuth => "auth_none",
                 Auth::Required => "auth_required",
                 Auth::Optional => "auth_optional",
+                Auth::RequiredEmptyCa => "auth_required_empty_ca",
             });
             o.label(match ident {
                 Ident::NoCert => "ident_none",
@@ -431,6 +437,8 @@ pub fn run(c: &Case, o: &mut Outcome) -> Result<(), Failure> {
                 (Auth::NoClientAuth, _) => Some(true),
                 (Auth::Required, Ident::Valid) => Some(true),
                 (Auth::Required, _) => Some(false),
+                // a client CA without any certificate can vouch for nobody (refusing to start is fine too)
+                (Auth::RequiredEmptyCa, _) => Some(false),
                 (Auth::Optional, Ident::ByOtherCa) => None,
                 (Auth::Optional, _) => Some(true),
             };
@@ -491,7 +499,7 @@ impl Prop for C15 {
         v
     }
     fn fixed_is_exhaustive() -> Option<&'static str> {
-        Some("the full configuration matrix (102 cells) x 2 fixed pipe schedules is enumerated completely")
+        Some("the full configuration matrix (112 cells) x 2 fixed pipe schedules is enumerated completely")
     }
     fn max_shrink_iters() -> u32 {
         200
